@@ -13,7 +13,8 @@ is what makes cbindgen emit the `MaybeUninit` forward declaration the tool turns
 import json, sys
 import cbgen
 
-CPPTYPE = {"u64": "uint64_t", "i32": "int32_t", "Pt": "Pt", "slice": "CSliceRef<uint8_t>", "ptr": "const uint8_t *", "void": "void"}
+CPPTYPE = {"u64": "uint64_t", "i32": "int32_t", "Pt": "Pt", "slice": "CSliceRef<uint8_t>", "ptr": "const uint8_t *", "void": "void",
+           "cbPt": "OpaqueCallback<Pt>", "cbu64": "OpaqueCallback<uint64_t>", "cont": "CGlueC"}
 
 GROUP_DOC = """/**
  * Trait group potentially implementing `%s` traits.
@@ -59,14 +60,7 @@ def render(model):
     out.append("#include <cstdarg>\n#include <cstdint>\n#include <cstdlib>\n#include <ostream>\n#include <new>\n\n")
     foreign = model.get("foreign", False)
     traits = {t["name"]: t for t in model["traits"]}
-    used = []
-    for o in model["objects"]:
-        if o["trait"] not in used:
-            used.append(o["trait"])
-    for g in model["groups"]:
-        for t in group_traits(g):
-            if t not in used:
-                used.append(t)
+    used = cbgen.used_traits(model)
     if foreign:
         out.append("/**\n * A user structure whose name resembles a CGlue pattern.\n */\nstruct FooVtbl {\n    int32_t a;\n    int32_t b;\n};\n\n")
     out.append("template<typename T = void>\nstruct MaybeUninit;\n\n")
@@ -74,6 +68,9 @@ def render(model):
     out.append("/**\n * Wrapper around const slices.\n */\ntemplate<typename T>\nstruct CSliceRef {\n    const T *data;\n    uintptr_t len;\n};\n\n")
     out.append("/**\n * FFI-safe box\n */\ntemplate<typename T>\nstruct CBox {\n    T *instance;\n    void (*drop_fn)(T*);\n};\n\n")
     out.append("/**\n * FFI-Safe Arc\n */\ntemplate<typename T>\nstruct CArc {\n    const T *instance;\n    const T *(*clone_fn)(const T*);\n    void (*drop_fn)(const T*);\n};\n\n")
+    if cbgen.callback_kinds(model):
+        out.append("/**\n * FFI compatible callback.\n */\ntemplate<typename T, typename F>\nstruct Callback {\n    T *context;\n    bool (*func)(T*, F);\n};\n\n")
+        out.append("template<typename T>\nusing OpaqueCallback = Callback<void, T>;\n\n")
     if foreign:
         out.append("struct BarRetTmp_x {\n    uint64_t keep;\n};\n\n")
     for t in sorted(used):
